@@ -50,8 +50,12 @@ TRUSTED = [
 ]
 PARTIAL = [
     "scalar/array/list agreement of the implementation is compared (oracle), the theorem is about the model's vec",
-    "measures are assumed in time order and non-overlapping; the length clause assumes they tile",
-    "pickup correction is specified relative to the time signature and beat length at time 0 (as the code measures them)",
+    "ts/ks/clef_spec assume at most one element of a kind (and staff) per time (the Reading); for coincident "
+    "elements lookup_spec states that the value of one of the rows in force is returned",
+    "measure_spec/number_spec assume measures in time order without overlap (gaps allowed); the length component of "
+    "metrical_spec assumes they tile (metrical_position_no_tiling gives the position component without that)",
+    "pickup correction is specified relative to the time signature and beat length at time 0 (as the code measures them); "
+    "divs_per_beat is a parameter of the model",
     "agreement of the note-array columns with the maps is compared on the implementation, not proved",
 ]
 RULE = ("two structured generators over abstract parts built through Part.add/set_quarter_duration: 'musical' "
@@ -79,7 +83,7 @@ def _sorted(l):
 def gen_musical(rng):
     q0 = rng.choice([4, 4, 8, 12, 16, 24])
     nbars = rng.randint(1, 6)
-    offset = rng.choice([0, 0, 0, 0, q0, 3, 7])
+    offset = rng.choice([0, 0, 0, 0, 0, 0, 0, q0, 3, 7])
     sigs = [(rng.choice([2, 3, 4, 4, 5, 6, 6, 7, 9, 12]), rng.choice([2, 4, 4, 8, 8, 16]))]
     ts, ms, ks, clefs, notes, words, dirs = [], [], [], [], [], [], []
     t = offset
@@ -138,7 +142,7 @@ def gen_musical(rng):
 def gen_adversarial(rng):
     q0 = rng.choice([1, 2, 4, 4, 8])
     T = rng.randint(1, 30)
-    g = rng.choice([0, 0, 0, 2, 5])
+    g = rng.choice([0, 0, 0, 0, 2, 5])
     rt = lambda: rng.randint(g, g + T)
     ts, ks, clefs, ms, notes, words, dirs = [], [], [], [], [], [], []
     dup = rng.random() < 0.08
@@ -356,25 +360,52 @@ def call(f, *a):
         return None, e
 
 
-def query_all(getmap, xs, canon):
-    """returns (scalar rows, vector rows, list rows, error): each a list with one canonical entry per x"""
+class ShapeError(Exception):
+    pass
+
+
+def query_all(getmap, xs, canon0):
+    """returns (scalar rows, vector rows, list rows, error): each a list with one canonical entry per x;
+    a result of an unexpected shape counts as an error of the implementation (not of the harness)"""
+
+    def canon(r, n=None):
+        try:
+            c = canon0(r)
+        except (AssertionError, TypeError, ValueError, IndexError) as e:
+            raise ShapeError("result of unexpected shape/type: %r" % (getattr(r, "shape", type(r).__name__),))
+        def is_row(v):
+            return isinstance(v, str) or (isinstance(v, list) and len(v) > 0 and all(w is None or isinstance(w, float) for w in v))
+
+        if n is None:
+            if not is_row(c):
+                raise ShapeError("scalar call gave %s rows" % (len(c) if isinstance(c, list) else "?"))
+        elif is_row(c) or not isinstance(c, list) or len(c) != n or not all(is_row(v) for v in c):
+            raise ShapeError("vector call gave %s for %d positions" % ("one row" if is_row(c) else "%d rows" % len(c), n))
+        return c
+
     m, e = call(getmap)
     if e:
         return None, None, None, e
     sc = []
     for x in xs:
         r, e = call(m, int(x))
+        if not e:
+            r, e = call(canon, r)
         if e:
             return None, None, None, e
-        sc.append(canon(r))
+        sc.append(r)
     r, e = call(m, np.array(xs, dtype=int))
+    if not e:
+        r, e = call(canon, r, len(xs))
     if e:
         return sc, None, None, e
-    vec = canon(r)
+    vec = r
     r, e = call(m, [int(x) for x in xs])
+    if not e:
+        r, e = call(canon, r, len(xs))
     if e:
         return sc, vec, None, e
-    return sc, vec, canon(r), None
+    return sc, vec, r, None
 
 
 def evaluate(desc):
@@ -445,6 +476,8 @@ def evaluate(desc):
             if not _same(vec, lst):
                 orc.append("scalar-vector: %s: ndarray and list calls differ (list call gives %d rows for %d positions)" % (
                     name, len(lst) if isinstance(lst, list) else -1, len(xs)))
+        elif isinstance(err, ShapeError):
+            orc.append("scalar-vector: %s: %s" % (name, str(err)[:160]))
         elif valid and not (name in ("measure_number_map",) and mn_unfillable):
             orc.append("raises: %s raised %s: %s" % (name, type(err).__name__, str(err)[:120]))
 
